@@ -12,6 +12,8 @@ structure St where
   /-- block ids mentioned by `vote`/`peermaj23` ops of this case, in order of first mention -/
   bids : List BlockID := []
   commit : Option Commit := none
+  evA : Option Vote := none
+  evB : Option Vote := none
 
 def showBid (b : BlockID) : String := s!"{hexEncode b.hash}/{b.total}/{hexEncode b.phash}"
 
@@ -98,6 +100,18 @@ def showBasic : BasicErr → String
 def step (st : St) (toks : List String) : St × String :=
   match toks with
   | "case" :: _ => ({}, "ok")
+  | "evvote" :: _ =>
+    match parseVote? st.chain toks with
+    | none => (st, "bad-op")
+    | some v => (if arg? toks "slot" == some "a" then { st with evA := some v } else { st with evB := some v }, "ok")
+  | "dupev" :: _ =>
+    match st.evA, st.evB, argNat? toks "key", argHex? toks "kaddr" with
+    | some a, some b, some key, some kaddr =>
+      (st, match dupEvVerify symVerify st.chain key kaddr a b with
+        | .ok => "ok" | .hrs => "err=hrs" | .addr => "err=addr" | .index => "err=index" | .sameBlock => "err=same-block"
+        | .pubkey => "err=pubkey" | .sigA => "err=sigA" | .sigB => "err=sigB")
+    | none, _, _, _ | _, none, _, _ => (st, "novotes")
+    | _, _, _, _ => (st, "bad-op")
   | "valset" :: _ =>
     match parseVals? toks, argHex? toks "chain" with
     | some vals, some chain =>
